@@ -19,7 +19,7 @@ From Coq Require Import List Arith Bool ZArith.
 From VBase Require Import FieldOps MachInt.
 From VGen Require Import FriInt.
 From VModel Require Import Merkle Fri FriMerkle.
-From VProofs Require Import MerkleSingle MerkleBind FriAccept FriBinding FriCount FriMerkleInst FriGen FriExamples.
+From VProofs Require Import MerkleSingle MerkleBind FriAccept FriBinding FriIdx FriCount FriQuery FriMerkleInst FriGen FriExamples.
 Import ListNotations.
 Local Open Scope nat_scope.
 
@@ -177,6 +177,58 @@ Theorem C05_fri_query_counting_lde_partial : forall (F : Type) (O : FOps F) (gen
   = (D - bad * N ^ k) ^ q /\ length (vectors D q) = D ^ q.
 Proof. exact (@fri_query_counting_lde_partial). Qed.
 Print Assumptions C05_fri_query_counting_lde_partial.
+
+(* fri_query_counting_all_checks_partial — EVERY comparison of the query phase, for layer functions E_0..E_(k-1), challenges and a
+   remainder R fixed before the positions are drawn.  cs is the list of checks (level i, predicate on the positions reached
+   after i foldings): the layer comparisons `evaluations != query_values` (InvalidLayerFolding) are [good_fold], the remainder
+   comparison is [good_rem]; C05_query_comparisons says that the model's comparison functions are exactly the conjunction of
+   these predicates over the current positions, and C05_layer_step_opened_iff that the model's layer step succeeds iff its
+   comparison does (positions de-duplicated by fold_positions as in the code).  Then: a position vector passes all checks iff
+   every LDE position reduces (mod the layer's domain size) into the good set of every check; exactly (D - U)^q of the D^q
+   vectors pass, U = size of the union of the preimages of the bad sets; and (D - U)^q <= (D - bad_c N^level)^q for every
+   single check c, i.e. the passing fraction is at most (1 - max_c bad_c/|domain_c|)^q.  Pure counting (partial): not claimed
+   are the uniformity/independence of the drawn positions, the composition of the per-layer iff over the whole loop as one
+   theorem, and the proximity-gap theorem relating the distance of E_0 from the code to the bad sets. *)
+Theorem C05_fri_query_counting_all_checks_partial : forall (N : nat) (cs : list (nat * (nat -> bool))) n k q, N <> 0 -> n <> 0 ->
+  (forall c, In c cs -> fst c <= k) ->
+  let D := n * N ^ k in
+  let U := length (filter (fun p => negb (pos_ok_checks cs n N k p)) (seq 0 D)) in
+  (forall ps, (forall p, In p ps -> p < D) -> pass_checks cs n N k ps = forallb (pos_ok_checks cs n N k) ps) /\
+  length (filter (pass_checks cs n N k) (vectors D q)) = (D - U) ^ q /\ length (vectors D q) = D ^ q /\
+  (forall i g, In (i, g) cs ->
+     (D - U) ^ q <= (D - length (filter (fun x => negb (g x)) (seq 0 (level_size n N k i))) * N ^ i) ^ q).
+Proof. intros N. exact (fri_query_counting_all_checks_partial N). Qed.
+Print Assumptions C05_fri_query_counting_all_checks_partial.
+
+Theorem C05_query_comparisons : forall (F : Type) (O : FOps F) (gen_offset : F) (roots : list F) (N : nat),
+  (forall g Eprev Enext rl alpha P,
+     list_feqb O (map (foldval O gen_offset roots N g Eprev rl alpha) P) (map (fun p => nth p Enext (fzero O)) P)
+     = forallb (good_fold O gen_offset roots N g Eprev Enext rl alpha) P) /\
+  (forall R gk gprev Eprev rl alpha P,
+     remainder_check O gen_offset R gk P (map (foldval O gen_offset roots N gprev Eprev rl alpha) P)
+     = forallb (good_rem O gen_offset roots N R gk gprev Eprev rl alpha) P).
+Proof. intros. split; intros; [apply layer_compare_forallb | apply remainder_compare_forallb]. Qed.
+Print Assumptions C05_query_comparisons.
+
+Theorem C05_layer_step_opened_iff : forall (F : Type) (O : FOps F), FLaws O ->
+  forall (gen_offset : F) (dbg : bool) (D : Type) (hash_elements : list F -> D) (MN : Type)
+         (mt_verify_batch : D -> list nat -> list D -> MN -> nat -> auth_res)
+         N v roots depth s s' E rl alpha commitment nodes d proofs' queries',
+  N <> 0 -> rl <> 0 -> vs_size D MN s = rl * N -> (forall p, In p (vs_positions D MN s) -> p < rl * N) ->
+  fo_folding (v_options D v) = N -> v_partitions D v = 1 ->
+  nth_error (v_commitments D v) depth = Some commitment -> nth_error (v_alphas D v) depth = Some alpha ->
+  let folded := fold_positions_core (vs_positions D MN s) rl in
+  let rows := map (row_of (fzero O) N rl E) folded in
+  vc_proofs D MN (vs_chan D MN s) = (map hash_elements rows, nodes, d) :: proofs' ->
+  vc_queries D MN (vs_chan D MN s) = concat rows :: queries' ->
+  mt_verify_batch commitment folded (map hash_elements rows) nodes d = AuthOk ->
+  vs_mdp1 D MN s mod N = 0 ->
+  (layer_step O gen_offset dbg D MN mt_verify_batch N v roots depth s = Ok s' <->
+   vs_evals D MN s = map (fun p => nth p E (fzero O)) (vs_positions D MN s) /\
+   s' = mkVS D MN (fexp O (vs_gen D MN s) N) rl (vs_mdp1 D MN s / N) folded
+             (map (foldval O gen_offset roots N (vs_gen D MN s) E rl alpha) folded) (chan_tail D MN (vs_chan D MN s))).
+Proof. intros F O L gen_offset dbg D hash_elements MN mt_verify_batch. exact (layer_step_opened_iff O L gen_offset dbg D hash_elements MN mt_verify_batch). Qed.
+Print Assumptions C05_layer_step_opened_iff.
 
 (* ---------------------------------------------------------------- round 4: the model computes the GENERATED integer terms
    (coq/Gen/FriInt.v, regenerated from fri/src by rs2v on every run) *)
